@@ -10,11 +10,7 @@ constexpr long long kNs = 1000000000LL;
 PeerId self_id() { PeerId s{}; for (std::size_t i = 0; i < 32; ++i) s[i] = static_cast<std::uint8_t>(0x11 * (i % 7) + 3); return s; }
 PeerId peer_n(unsigned n) { PeerId p = self_id(); p[0] ^= static_cast<std::uint8_t>(0x80 >> (n % 8)); p[31] ^= static_cast<std::uint8_t>(n + 1); return p; }
 ChunkId chunk_n(unsigned n) { ChunkId c{}; for (std::size_t i = 0; i < 32; ++i) c[i] = static_cast<std::uint8_t>(n ? 0xC0 + i : 0x21 + 2 * i); return c; }
-void advance_clock() {
-    const std::uint64_t d = nondet_u64("advance_ns");
-    verif_assume(d <= (1ull << 50));
-    verif_env::g_steady_ns += static_cast<long long>(d);
-}
+using verif_env::advance_clock;
 struct Prov { bool present = false; long long deadline = 0; std::uint8_t addr = 0; };
 }
 
@@ -23,7 +19,7 @@ struct Prov { bool present = false; long long deadline = 0; std::uint8_t addr = 
 extern "C" void h_c06_history(unsigned long k, unsigned long npeers, unsigned long nchunks, unsigned long seq) {
     KademliaTable table(self_id());
     Prov o[2][3];
-    verif_env::g_steady_ns = static_cast<long long>(nondet_u64("t0") & ((1ull << 60) - 1));
+    verif_env::start_clock();
     for (unsigned long step = 0; step < k; ++step) {
         advance_clock();
         const long long now = verif_env::g_steady_ns;
@@ -33,8 +29,8 @@ extern "C" void h_c06_history(unsigned long k, unsigned long npeers, unsigned lo
         std::uint8_t ps = nondet_u8("peer"); verif_assume(ps < npeers);
         const unsigned p = static_cast<unsigned>(verif_concretize(ps, 4));
         if (op == 0) {
-            const std::int64_t ttl = static_cast<std::int64_t>(nondet_u64("ttl_s"));
-            verif_assume(ttl >= -4 && ttl <= (1LL << 20));
+            // TTL in [-4, 251] s, event times on the 1/8 s grid (see stdmodels.h)
+            const std::int64_t ttl = static_cast<std::int64_t>(nondet_u8("ttl_s")) - 4;
             PeerContact contact{}; contact.id = peer_n(p);
             const std::uint8_t a = nondet_u8("addr");
             contact.address = std::string(1, static_cast<char>(a));
